@@ -37,17 +37,16 @@ def rstripNul (b : Bytes) : Bytes := (b.reverse.dropWhile (· == 0)).reverse
 `char value[length]`; a short read of either part raises EOFError (measured with dissect.cstruct 4.7). -/
 def readSetting (f : PyFile) : Py (Setting × PyFile) :=
   let (hdr, f1) := f.read 6
-  match hdr with
-  | [i0, i1, t0, t1, l0, l1] =>
-    let len := fromBE [l0, l1]
+  if hdr.length < 6 then .error .eofError
+  else
+    let len := fromBE ((hdr.drop 4).take 2)
     let (v, f2) := f1.read (len : Int)
     if v.length < len then .error .eofError
-    else .ok ({ index := fromBE [i0, i1], type := fromBE [t0, t1], length := len, value := v }, f2)
-  | _ => .error .eofError
+    else .ok ({ index := fromBE (hdr.take 2), type := fromBE ((hdr.drop 2).take 2), length := len, value := v }, f2)
 
 /-- The User-Agent continuation loop (beacon.py 453-461), one `read(1)` per iteration.
 `fuel` bounds the number of iterations; running out of it is reported as `timeoutDiverge`
-(`C02.uaLoop_total` shows that `remaining bytes + 1` always suffices for the repaired code). -/
+(`C02.uaLoop_at` in Lemmas/C02.lean shows that `remaining bytes + 1` always suffices for the repaired code). -/
 def uaLoop : Nat → PyFile → Bytes → Py (Bytes × PyFile)
   | 0, _, _ => .error .timeoutDiverge
   | fuel + 1, f, value =>
@@ -116,6 +115,31 @@ def serializeOne (s : Setting) : Bytes := be16 s.index ++ be16 s.type ++ be16 s.
 
 def serialize (ss : List Setting) : Bytes := ss.flatMap serializeOne
 
+/-- the condition under which `iter_settings` continues a User-Agent value beyond its length field -/
+def Setting.uaOverlong (s : Setting) : Prop :=
+  s.index = settingUserAgent ∧ s.length = 0x80 ∧ (rstripNul s.value).length ≥ 0x80
+
+instance (s : Setting) : Decidable s.uaOverlong := by unfold Setting.uaOverlong; infer_instance
+
+/-- a record that the TLV format can carry: 16-bit fields, non-zero index (a zero index is the terminator),
+`length` = number of value bytes -/
+def Setting.Encodable (s : Setting) : Prop :=
+  0 < s.index ∧ s.index < 65536 ∧ s.type < 65536 ∧ s.length < 65536 ∧ s.value.length = s.length
+
+instance (s : Setting) : Decidable s.Encodable := by unfold Setting.Encodable; infer_instance
+
+/-- what `iter_settings` can yield unchanged: an encodable record that is not an over-long User-Agent and whose
+enum identity is the one the decoder assigns (deprecated INJECT_OPTIONS iff index 36 with TYPE_SHORT) -/
+def Setting.WellFormed (s : Setting) : Prop :=
+  s.Encodable ∧ ¬ s.uaOverlong ∧
+  s.deprecated = (decide (s.index = settingWatermarkHash) && decide (s.type = typeShort))
+
+instance (s : Setting) : Decidable s.WellFormed := by unfold Setting.WellFormed; infer_instance
+
+def WellFormedList (ss : List Setting) : Prop := ∀ s ∈ ss, s.WellFormed
+
+instance (ss : List Setting) : Decidable (WellFormedList ss) := by unfold WellFormedList; infer_instance
+
 /-! ### setting_enums / max_setting_enum -/
 
 def settingEnums (ss : List Setting) : List Nat := ss.map (·.index)
@@ -140,24 +164,29 @@ inductive Val
 inductive IndexType | name | const | enum
   deriving DecidableEq, Repr
 
-/-- Dictionary keys: `str` (name view), `int` (const view), enum object = (class, value) (enum view).
+/-- Dictionary keys: `str` (name view; enum member names are ASCII identifiers, modelled as `Bytes`),
+`int` (const view), enum object = (class, value) (enum view).
 cstruct enum objects compare equal iff same class and same value, and hash consistently. -/
 inductive Key
-  | name (s : String)
+  | name (s : Bytes)
   | const (n : Nat)
   | enum (deprecated : Bool) (n : Nat)
   deriving DecidableEq, Repr
 
 /-- `setting.index.name` -/
-def enumName (deprecated : Bool) (v : Nat) : Option String :=
-  if deprecated then deprecatedNames.lookup v else settingNames.lookup v
+def enumName (deprecated : Bool) (v : Nat) : Option Bytes :=
+  if deprecated then deprecatedNameBytes.lookup v else settingNameBytes.lookup v
+
+/-- `str(n)` for a non-negative int: ASCII decimal digits -/
+def decimal (n : Nat) : Bytes :=
+  if n < 10 then [UInt8.ofNat (48 + n)] else decimal (n / 10) ++ [UInt8.ofNat (48 + n % 10)]
 
 /-- `setting.index.name or str(setting.index).replace(".", "_")`
 (`str` of a nameless member is `<EnumName>.<value>`; all generated names are non-empty). -/
-def nameKey (deprecated : Bool) (v : Nat) : String :=
+def nameKey (deprecated : Bool) (v : Nat) : Bytes :=
   match enumName deprecated v with
   | some n => n
-  | none => (if deprecated then deprecatedUnknownPrefix else unknownPrefix) ++ toString v
+  | none => (if deprecated then deprecatedUnknownPrefixBytes else unknownPrefixBytes) ++ decimal v
 
 def keyOf (it : IndexType) (s : Setting) : Key :=
   match it with
